@@ -178,6 +178,37 @@ func dynMux(fds []protoreflect.FileDescriptor, impl *dynImpl, opts ...larking.Mu
 	return m, nil
 }
 
+// dynMuxLater is dynMux followed by one more registration (a service of another file, reached only under its own
+// /verif.later.L/Ping): the routes of the services under test are then served from a routing state that was copied
+// after they were bound, as on any mux that registers more than one service
+func dynMuxLater(fds []protoreflect.FileDescriptor, impl *dynImpl, opts ...larking.MuxOption) (*larking.Mux, error) {
+	later, err := dynFile{Path: "verif/later.proto", Pkg: "verif.later", Services: []dynService{{Name: "L", Methods: []dynMethod{
+		{Name: "Ping", In: "larking.testpb.Message", Out: "larking.testpb.Message"},
+	}}}}.build()
+	if err != nil {
+		return nil, err
+	}
+	files := &protoregistry.Files{}
+	for _, fd := range append(append([]protoreflect.FileDescriptor(nil), fds...), later) {
+		if err := files.RegisterFile(fd); err != nil {
+			return nil, err
+		}
+	}
+	m, err := larking.NewMux(append([]larking.MuxOption{larking.FilesOption(files)}, opts...)...)
+	if err != nil {
+		return nil, err
+	}
+	for _, fd := range append(append([]protoreflect.FileDescriptor(nil), fds...), later) {
+		sds := fd.Services()
+		for i := 0; i < sds.Len(); i++ {
+			if err := safeRegister(m, serviceDesc(sds.Get(i), impl)); err != nil {
+				return m, err
+			}
+		}
+	}
+	return m, nil
+}
+
 type panicError struct{ v interface{} }
 
 func (p panicError) Error() string { return fmt.Sprintf("panic: %v", p.v) }
